@@ -104,12 +104,25 @@ def universe(tier):
                 start = ('let', 'w', src, call('T', [('ref', 'w')], kw))
                 yield ('earlier-result/%s' % ('kw' if kw else 'pos'), start, [('T', ('rule', ['p'], body))] + BASE + ID,
                        ('let', 'w', src, subst(body, {'p': ('ref', 'w')})))
+    # a parameter named like a rule or a class of the grammar denotes the argument, not the rule
+    for pname in ('X', 'K'):
+        PN = ('ref', pname)
+        for body in (PN, ('seq', PN, PN), ('star', PN), ('call', 'ID', [PN], []), ('call', 'ID', [('seq', PN, C)], [])):
+            for arg in (A, ('re', '[ac]'), ('seq', A, C), ('ref', 'X')):
+                for kw in (None, (pname,)):
+                    yield ('param-named-like-rule/%s' % ('kw' if kw else 'pos'), call('T', [arg], kw),
+                           [('T', ('rule', [pname], body))] + BASE + ID, None)
+        yield ('param-named-like-rule/value', call('T', [('py', '7')], None),
+               [('T', ('rule', [pname], ('seq', A, ('py', pname), ('call', 'V', [PN, ('py', pname)], [])))),
+                ('V', ('rule', ['a1', 'a2'], ('py', '(a1, a2)')))] + BASE + ID, None)
     # arguments mentioning names bound at the call site
     site = [
         ('where', ('re', '[ab]'), ('py', 'lambda y: y == w')),
         ('seq', ('re', '[abc]'), ('py', 'w')),
         ('rep', A, None, ('py', 'len(w)')),
         ('choice', ('seq', ('py', 'w'), C), B),
+        ('let', 'w', ('re', '[abc]'), ('py', 'w')),                       # the argument re-binds the call-site name
+        ('let', 'w', ('seq', ('re', '[abc]'), ('py', 'w')), ('py', 'w')),  # ... and reads the outer one first
     ]
     for arg in site:
         for bn in ('p', '[p,p]', 'p*', 'Ep>>p', 'p|c'):
@@ -140,7 +153,10 @@ def universe(tier):
             yield ('same-position', ('seq', ('expect', ('opt', tx)), ('opt', ty)), rules, ('seq', ('expect', ('opt', ex)), ('opt', ey)))
             yield ('same-position', ('longest', tx, ty), rules, ('longest', ex, ey))
             yield ('same-position', ('seq', ('expectnot', tx), ty), rules, ('seq', ('expectnot', ex), ey))
-    vpairs = [('1', 'True'), ('0', 'False'), ('1', '1.0'), ("'a'", "'b'"), ('[1]', '[2]'), ('None', '0'), ('(1,)', '[1]')]
+    vpairs = [('1', 'True'), ('0', 'False'), ('1', '1.0'), ("'a'", "'b'"), ('[1]', '[2]'), ('None', '0'), ('(1,)', '[1]'),
+              # different values with equal hashes
+              ('-1', '-2'), ('[0, 1, 2]', '[2, 1, 0]'), ('[1, 2]', '[2, 1]'), ("{'a': 1, 'b': 2}", "{'b': 1, 'a': 2}"),
+              ('[[1], 2]', '[[2], 1]')]
     for x, y in vpairs:
         body = VBODIES['val']
         rules = [('T', ('rule', ['p'], body))] + BASE + ID
